@@ -289,7 +289,12 @@ class Buildable(Generic[T], metaclass=abc.ABCMeta):
             f'Unexpected type received for the argument name: {key!r}'
         )
 
+    parameters = self.__signature_info__.parameters
     for name, tags in tag_type.find_tags_from_annotations(fn_or_cls).items():
+      # Use the canonical storage key: positional-only parameters are keyed by
+      # their index (they can not be addressed by name).
+      if parameters[name].kind == parameters[name].POSITIONAL_ONLY:
+        name = list(parameters).index(name)
       self.__argument_tags__[name].update(tags)
       self.__argument_history__.add_updated_tags(
           name, self.__argument_tags__[name]
